@@ -69,6 +69,9 @@ func c05Check(c *C05Case) Verdict {
 	sc := &c.WF
 	// reference run (never cancelled)
 	ref, refErr, _, p, _ := c05Run(sc, "none", -2, 0)
+	if runaway(p) {
+		return ok(false, "scenario-did-not-terminate") // C03/C10 territory, see runaway()
+	}
 	if p != "" {
 		return bad("C05:panic", "reference run panicked: %s", p)
 	}
@@ -81,6 +84,9 @@ func c05Check(c *C05Case) Verdict {
 		at = ref[point].T0 + 500*time.Millisecond
 	}
 	tr, err, ctxErr, p, _ := c05Run(sc, c.Flavor, point, at)
+	if runaway(p) {
+		return ok(false, "scenario-did-not-terminate") // C03/C10 territory, see runaway()
+	}
 	if p != "" {
 		return bad("C05:panic", "run panicked: %s", p)
 	}
